@@ -11,7 +11,7 @@ THEOREMS = ["C18_sees_once", "C18_filter_semantics", "C18_sees_once_refuted", "C
             "C18_send_closes", "C18_send_closes_refuted", "C18_owns_nothing", "C18_loses_rules", "C18_no_pending_replies",
             "C18_switch_effect", "C18_transparent", "C18_erasable", "C18_once_total", "C18_once_total_refuted"]
 
-KNOWN_CLASS = {"unseen-local": "F18b", "monitor-not-closed-local": "F18a", "switch-duplicate": "F18c", "rule-collected": "F18d"}
+KNOWN_CLASS = {"unseen-local": "F18b", "monitor-not-closed-local": "F18a", "switch-duplicate": "F18c", "rule-collected": "F18d", "held-call-noreply": "F18e", "held-from-monitor": "F18e"}
 
 
 def load_known():
@@ -170,6 +170,11 @@ def run(ctx):
         if results[0] is not None and results[1] is not None:
             paired_compared += 1
             diffs = mc.compare_paired(ev, results[0], histB[i], results[1])
+            for d in diffs:
+                if KNOWN_CLASS.get(d["cls"]) in known:
+                    rep.known(known[KNOWN_CLASS[d["cls"]]], {"events": " ".join(ev[:d["step"] + 1]), "step": d["step"],
+                                                             "observed": "connection %d read %s, without the monitor %s" % (d["conn"], d["with_monitor"], d["without"])})
+            diffs = [d for d in diffs if KNOWN_CLASS.get(d["cls"]) not in known]
             if diffs:
                 d = diffs[0]
                 rep.violation("an ordinary client observes something different with a monitor present than with that connection simply gone: step %d `%s` connection %d read %s, "
